@@ -90,6 +90,14 @@ Theorem C09_find_all_by_id_in_document_order :
 Proof. exact find_all_by_id_document_order. Qed.
 Print Assumptions C09_find_all_by_id_in_document_order.
 
+(* no node is returned twice *)
+Theorem C09_find_all_no_duplicates :
+  forall (f : forest) (s : start) (ms : matchspec) (add_self : bool) (k : nat) (r : list rt),
+  NoDup (ids f) -> start_in f s ->
+  node_find_all (iterator f s) None (Some ms) None add_self k = Ok r -> NoDup (map rid r).
+Proof. exact find_all_NoDup. Qed.
+Print Assumptions C09_find_all_no_duplicates.
+
 (* the two structural relations are inhabited and distinguish the two orders of a pair *)
 Example C09_document_order_nonvacuous :
   let i (o : Z) := I o o o true [o] (DInt o) None [] in
